@@ -15,25 +15,44 @@ CHECK = Check(
         "indexing limited to the caller's buffer, no fast paths, copying Unroll, aliasing contiguous Reshape), tied to the code by NDPAIR "
         "(same program on Go-backed and C-backed roots, both runs compared with the model; canary guard zones around every C buffer "
         "checked after every operation) and ND programs on C roots",
-        "memory safety of the real process: theorem c_inbounds on the model + canaries on the sampled runs; Go unsafe.Pointer semantics trusted",
+        "memory safety of the real process: theorems c_inbounds_get / c_inbounds_set / c_never_oob / c_never_oob_off on the model (in-range requests) + canaries on the sampled runs; Go unsafe.Pointer semantics trusted",
         "C entry point: libopenwater.so built from the current tree and called from a C program (harness/cabi/driver.c) with guard zones around "
         "all four caller buffers, for every catalogued model; results compared bit for bit with the Go-API run of the same case and with the "
         "wrapper model (family CABI)",
     ],
-    assumptions=["views reachable by in-bounds slicing of roots with extents >= 1; operations in the domain of the reference semantics",
-                 "two-array operations (applySlice, copyFrom, zipWithInto) between DIFFERENT storages on both sides (overlap = known finding KF-C03-overlap)"],
-    partial=[],   # observational_equivalence (C03Full) supersedes the _partial versions of C03Bulk: no excluded case is left
+    assumptions=["views reachable by in-bounds slicing of roots with extents >= 1 (Reach: steps >= 1, non-empty value lists `vals != []` in Apply) ; "
+                 "operations in the domain of the reference semantics: every request in bounds (ProgOK'). OUT of range the two back-ends are NOT "
+                 "equivalent: the Go back-end panics (slice index check), the C back-end indexes *[1<<30]T unchecked and reads / writes the caller's memory "
+                 "silently (c_never_oob* state the in-range side only; canaries see the sampled runs)",
+                 "buffer-size obligations of the caller: ShapesOK (every buffer holds at least the product of its shape, extents >= 1) / ArrOK "
+                 "(window inside the storage); the C side cannot check them",
+                 "the operation set of the bisimulation is Op = slice, get, set, apply, applySlice, copyFrom, unroll, contiguous, extremum (Maximum/Minimum), "
+                 "zipWithInto (Scale/AddTo/ApplyFunc1), reshape, reshapeFast. NOT in it: the rank-specialised accessors Get1/Set1/Apply1/Get2/Get3/Set2/Set3 "
+                 "(hand-written per rank in the template; modelled, in the ND / NDPAIR correspondence, not in Op), MustReshape (= reshape + panic on error; "
+                 "rel_mustReshape is proved separately, not part of a program), NewArray / the root constructors (world_of_roots gives the initial relation)",
+                 "two-array operations (applySlice, copyFrom, zipWithInto) between DIFFERENT storages on both sides (overlap = known finding KF-C03-overlap)",
+                 "one element type on both sides: for the int / uint instantiations the C side holds 32-bit elements, so the statements hold for values within "
+                 "32 bits (otherwise KF-C03-c-int-width, scope NDPAIR:c-int-width / ND:c-int-width; OW/Nd/CInt.lean narrow32_id_*)"],
+    partial=["cabi_eq_goapi (DESIGN C03-T3, clause 3 of the property: RunSingleModel through the C entry point = the Go-API run): NO THEOREM. "
+             "libopenwater/single.go (wrapping the caller buffers as C-backed arrays of shape [nCells,nStates] etc., the `states != nil` guard, "
+             "InitialiseStates + CopyFrom when initStates) is not modelled; the view-level wrapper theorems (C04Nd RootOn) are stated for Go-backed roots "
+             "(isC = false). The C entry point is tied by the CABI correspondence only (sampled: every catalogued model, libopenwater.so called from a C "
+             "program with guard zones, compared bit for bit with the Go-API run and with the wrapper model)",
+             "observational_equivalence (C03Full) supersedes the _partial versions of C03Bulk for programs over Op: no excluded case is left THERE"],
 )
 
 META = dict(
     category="proof",
     text="Lean 4 theorems: a Go-backed and a C-backed array with the same shape and contents stay related (same metadata, same element "
-         "values) under every operation of the model and return equal observations (c_go_bisim), and every address a C-backed reachable "
-         "view reads or writes lies inside the caller's buffer (c_inbounds). Model tied to the code by lock-step runs of the same "
-         "operation sequence on both back-ends with guard zones, and by the C ABI runs of all catalogued models.",
+         "values) under every operation of the operation set Op and return equal observations (rel_slice / rel_get / rel_set / rel_apply / "
+         "rel_applySlice / rel_copyFrom / rel_unroll / rel_extremum / rel_zipWithInto / rel_reshape*, whole programs: observational_equivalence, "
+         "observational_equivalence_roots), and every address a C-backed reachable view reads or writes for an in-range request lies inside the "
+         "caller's buffer (c_inbounds_get, c_inbounds_set, c_never_oob, c_never_oob_off). Clause 3 (RunSingleModel through the C entry point = Go API) "
+         "has NO theorem: libopenwater/single.go is not modelled; it is decided by the CABI correspondence (sampled). Model tied to the code by lock-step "
+         "runs of the same operation sequence on both back-ends with guard zones, and by the C ABI runs of all catalogued models.",
     design_ref="DESIGN.md §6 C03",
-    note="Trusted: Lean kernel + 3 standard axioms; Go unsafe pointer semantics; canaries detect only writes near the buffer. Known finding: "
-         "overlapping bulk copies differ between back-ends (scope NDPAIR:overlap).",
-    technique="Lean 4 proof (bisimulation over the operation set, address bounds) + lock-step differential runs Go-backed vs C-backed + model regenerated from the Go source on every run by a translator (gen_eq_* theorems tie it to the hand-written model)",
+    note="Trusted: Lean kernel + 3 standard axioms; Go unsafe pointer semantics; canaries detect only writes near the buffer. Known findings: "
+         "overlapping bulk copies differ between back-ends (scope NDPAIR:overlap); C-backed int / uint arrays hold 32-bit elements (NDPAIR:c-int-width).",
+    technique="Lean 4 proof (bisimulation over the operation set, address bounds) + lock-step differential runs Go-backed vs C-backed + index algebra (Index, SliceInto, Contiguous, integer helpers) regenerated from the Go source on every run by a translator (gen_eq_* theorems tie it to the hand-written model); heap-level operations and the C-specific code hand-written, tied by correspondence",
 )
 READY = True
